@@ -17,8 +17,13 @@ and back end (numpy always, C every 2nd model, jax every 6th) two modules are ge
 (False / True), containing rhs, monitor_values, missing_values (requesting up to 2 intermediates, a state and a - preferably unused - parameter), explicit_euler, generalized_rush_larsen and
 hybrid_rush_larsen (first state stiff).  One case = one (model, back end, function, point): the two modules must have identical
 state / parameter / monitor index tables and init arrays, every function of the remove_unused module must run (no NameError) and
-return an array of the same length with the same entries position by position (rtol 1e-12).  A differing result that is a permutation
-of the expected one is reported as a slot-order change.  Models whose remove_unused=False module cannot be generated are skipped.
+return an array of the same length with the same entries, compared BY NAME: for rhs and the schemes entry state_index(X) of the
+remove_unused module (its own index function) against entry state_index(X) of the plain module, monitor_values by monitor_index, missing_values by
+requested slot (rtol 1e-12, atol 1e-12 x (1 + magnitude)).  A differing result that is a permutation of the expected one is reported as
+C12:<be>:slot-layout-differs (the derivatives are computed but do not sit in their state_index slots).  Half of the models have the shape
+"derivatives independent of each other + unused intermediates that mention states / parameters in various orders", a third has intermediates -
+preferably unused monitors like i_cap = Cm*dV_dt - that mention a d<state>_dt name: all derivatives must still be computed and sit in their
+slots.  Models whose remove_unused=False module cannot be generated are skipped.
 Non-trivial: the model has at least one unused name (parameter, intermediate or unread state); distinct by sha1(text, back end,
 function, point)."""
 
@@ -29,7 +34,8 @@ def cases(tier, seed, focus):
         k = seed * 100003 + i
         bes = ["numpy"] + (["c"] if i % 2 == 0 else []) + (["jax"] if i % 6 == 5 else [])
         yield {"mseed": k, "opts": {"n_states": [2, 5] if i % 4 else [1, 5], "n_inter": [1, 8], "n_params": [1, 5], "shuffle": 0.5, "own": 0.3,
-                                    "own_forms": [f for f in mg.OWN_FORMS if f not in ("floor", "Mod")], "force": list(mg.feature_cycle(k, 1))},
+                                    "own_forms": [f for f in mg.OWN_FORMS if f not in ("floor", "Mod")], "force": list(mg.feature_cycle(k, 1)),
+                                    "indep": 0.5 if i % 4 else 0.0, "deriv_ref": 0.35},
                "npts": 2, "backends": bes, "tags": ["C12"]}
 
 
@@ -119,6 +125,7 @@ def check(case):
                 for pt in c["points"]:
                     pt = cm.restrict_point(pt, ref)
                     s, p = a.arrays(pt)
+                    s_b, p_b = b.arrays(pt)  # laid out by the remove_unused module's own index functions
                     for fn, dt, n in fns:
                         if fn in broken or (only and only != fn):
                             continue
@@ -133,7 +140,7 @@ def check(case):
                         if has_unused:
                             res["nontrivial"].append(cm.sha([text, bk, fn, pt]))
                         try:
-                            vb = b.raw(fn, s, pt["t"], p, dt=dt, n_out=n)
+                            vb = b.raw(fn, s_b, pt["t"], p_b, dt=dt, n_out=n)
                         except be.Stage as e:
                             broken.add(fn)
                             add(f"call-raises:{cm.exc_name(e.exc)}:{group(fn)}", f"{fn} of the remove_unused module raises", inp, "array", cm.exc_name(e.exc), str(e))
@@ -142,12 +149,31 @@ def check(case):
                             broken.add(fn)
                             add(f"length-changed:{group(fn)}", f"{fn} returns {vb.shape} instead of {va.shape} with remove_unused", inp, list(va.shape), list(vb.shape))
                             continue
-                        if not all(cm.close(x, y, 1e-12, 1e-300) or (np.isnan(x) and np.isnan(y)) for x, y in zip(va, vb)):
+                        # by name: slot of each module's own index function
+                        try:
+                            if fn == "monitor_values":
+                                pa = {k: float(va[a.index("monitor", k)]) for k in a.monitor}
+                                pb = {k: float(vb[b.index("monitor", k)]) for k in a.monitor}
+                            elif fn == "missing_values":
+                                pa = {k: float(va[i]) for k, i in req.items()}
+                                pb = {k: float(vb[i]) for k, i in req.items()}
+                            else:
+                                pa = {k: float(va[a.index("state", k)]) for k in a.state}
+                                pb = {k: float(vb[b.index("state", k)]) for k in a.state}
+                        except Exception as e:  # noqa: BLE001 - an index function of the remove_unused module does not know a declared name
                             broken.add(fn)
-                            perm = sorted(cm.tolist(va[:n])) == sorted(cm.tolist(vb[:n])) or all(cm.close(x, y, 1e-12) for x, y in zip(sorted(va[:n]), sorted(vb[:n])))
-                            kind = f"slot-order-changed:{group(fn)}" if perm else f"values-changed:{group(fn)}"
-                            add(kind, f"{fn} result differs with remove_unused" + (" (same values in other slots)" if perm else ""), inp, cm.tolist(va[:n]), cm.tolist(vb[:n]),
-                                f"state table {a.state}")
+                            add("layout-changed:index-raises", f"an index function of the remove_unused module raises for a declared name ({fn})", inp, "index", cm.exc_name(e), cm.short(e))
+                            continue
+                        bad = {k: pb[k] for k in pa if not (cm.vclose(pb[k], pa[k], 0.0, 1e-12) or (np.isnan(pa[k]) and np.isnan(pb[k])))}
+                        if bad:
+                            broken.add(fn)
+                            perm = len(bad) >= 2 and all(cm.vclose(x, y, 0.0, 1e-12) for x, y in zip(sorted(bad.values()), sorted(pa[k] for k in bad)))
+                            if perm and fn != "missing_values":
+                                add("slot-layout-differs", f"{fn} of the remove_unused module computes the same values but not in the slots its index function reports (by name: {sorted(bad)[:4]})", inp,
+                                    {k: pa[k] for k in bad}, bad, f"state table {b.state}; function {fn}; derivative references {ref.deriv_refs()}")
+                            else:
+                                add(f"values-changed:{group(fn)}", f"{fn} result differs with remove_unused (by name: {sorted(bad)[:4]})", inp, {k: pa[k] for k in bad}, bad,
+                                    f"state table {b.state}; derivative references {ref.deriv_refs()}")
                     if shr and res["failures"]:
                         break
     return res
